@@ -24,6 +24,7 @@ import (
 	"github.com/echovault/sugardb/internal"
 	"github.com/echovault/sugardb/internal/config"
 	"github.com/echovault/sugardb/internal/constants"
+	"github.com/echovault/sugardb/verifhook"
 	"github.com/gobwas/glob"
 	"gopkg.in/yaml.v3"
 	"log"
@@ -33,7 +34,6 @@ import (
 	"reflect"
 	"slices"
 	"strings"
-	"sync"
 	"time"
 )
 
@@ -44,7 +44,7 @@ type Connection struct {
 
 type ACL struct {
 	Users        []*User                  // List of ACL user profiles
-	UsersMutex   sync.RWMutex             // RWMutex for concurrency control when accessing ACL profile list
+	UsersMutex   verifhook.RWMutex        // RWMutex for concurrency control when accessing ACL profile list
 	Connections  map[*net.Conn]Connection // Connections to the echovault that are currently registered with the ACL module
 	Config       config.Config            // SugarDB configuration that contains the relevant ACL config options
 	GlobPatterns map[string]glob.Glob
@@ -129,13 +129,14 @@ func NewACL(config config.Config) *ACL {
 
 	acl := ACL{
 		Users:        users,
-		UsersMutex:   sync.RWMutex{},
+		UsersMutex:   verifhook.RWMutex{},
 		Connections:  make(map[*net.Conn]Connection),
 		Config:       config,
 		GlobPatterns: make(map[string]glob.Glob),
 	}
 
 	acl.CompileGlobs()
+	verifhook.NameLock(&acl.UsersMutex, "acl.users")
 
 	return &acl
 }
